@@ -40,7 +40,7 @@ CHECK = {'level': 'exploration',
          'heartbeats / 100 ms passed); a message that overlaps such a zone is charged to BOTH windows and every window stays within the limit. Oracle: V never stores a score for the '
          'IP of an innocent peer (sampled every 3 ms through the whole scenario), never lists it, stays connected to it, every one of its requests is answered. 3 fixed scripts in '
          'every tier (TestRegressConcurrentResetTicks: 5 and 6 held ticks at 500 / 300 ms, 3 unheld bans at the tick). '
-         'LATE BUT HONEST RESPONSES (about 1 scenario in 9; late_test.go): honest peers whose handlers answer every request, but SLOWLY - well-formed, solicited responses that arrive after '
+         'LATE BUT HONEST RESPONSES (about 1 scenario in 11; late_test.go): honest peers whose handlers answer every request, but SLOWLY - well-formed, solicited responses that arrive after '
          'the requester stopped waiting. 2-4 started p2p.Connections (own IPs / 2-3 responders on one IP / a dial-only responder seen as 127.0.0.1, optionally next to a listener on 127.0.0.1 / '
          'everybody on ::1) or a node plus a raw libp2p peer with 2-3 simultaneous connections that answers over a connection of its choice; limits 60-100 per procedure, rate interval 1 h, every '
          'RequestFrom charged with its worst case (messageMaxRetries+1 requests and responses), so that all traffic is within the limits whatever the timing. The response timeout of the requester '
@@ -67,9 +67,10 @@ CHECK = {'level': 'exploration',
          'logged earns nothing (counted). Then the ban consequences as everywhere: listed, no connection left, re-dials from the IP (InterceptAccept/Secured) and the own dial of the victim (InterceptAddrDial) refused while '
          'the ban is certain, ban seen over, re-dial admitted, request served, clean score, small penalty exact. Outside the domain, recorded only: Connection.ApplyPenalty/BanPeer(peerID) resolve the address through the live '
          'connections of the peer - for a peer that has left the unchanged engine knows no address and books nothing; a handler-issued penalty is asserted only when the victim still held a connection right after the call. '
+         'LARGE HONEST MESSAGES (about 1 generated scenario in 13 + 4 fixed scripts in every tier; size_test.go): well-formed says nothing about size - honest requests AND responses with payloads of 0 B, 1 KiB, 64 KiB, 1 MiB-64, 1 MiB-1, 1 MiB, 1 MiB+1, 1.5 MiB, 3 MiB (envelope = payload + ~50 bytes; neither the unchanged engine nor libp2p has a size limit up to 3 MiB: all classes are delivered intact), request and response class drawn independently (the echo handlers answer what the scenario prescribes), every scenario with at least one large response to a small request and one large request, both directions, between started p2p.Connections (own IPs / two responders on one IP / dial-only peer seen as 127.0.0.1 / ::1) and with the raw multi-connection peer (its requests and answers over connections of its choice), limits 60-100, rate interval 1 h, response timeout 2 min, legal mixes / re-dials / drains in between; the single well-formed requests of the general scenarios (legal-only and before offences) carry an echoed payload of a drawn class as well. Oracle: no node stores a score or ban for any IP of the scenario or 127.0.0.1 / ::1 - read after every exchange, sampled every 5 ms (also while a transfer is in flight), read again after the drain; a stored score is positive evidence, reported at its first occurrence -, the handler received exactly the bytes sent (once) and the requester exactly the bytes written, everybody still connected, a re-dial passes the gates, a further request is served. Fixed scripts (TestRegressLargeHonestMessages): 1.5 MiB response to a 1 KiB request then a 1.5 MiB request; the classes around 1 MiB and 3 MiB in both directions (tls, expiry 2 s); dial-only peer (noise); raw peer with 2 connections. '
          'Non-trivial = (timed gater) an IP crossed the threshold by accumulation, was queried while certainly banned and again '
          'after the ban was seen over; (untimed gater) crossed by accumulation and queried while banned; (end-to-end) a ban caused by traffic with a '
-         'refused dial during the ban and an accepted one after it (multi-connection peer: banned while holding >= 2 connections, all closed), or a legal-only scenario that filled a rate window exactly or whose mix over the procedures exceeded a single limit, or (concurrent traffic around ticks) a reset tick that fell into a held or running penalty path of a procedure of which an innocent peer sent more than the limit over the two adjacent windows, or (late honest responses) at least one response observed late, the scores read after the traffic had drained and a re-dial accepted, or (hit-and-run) an offence booked although the victim listed no connection to the offender (or not the offending connection) when it logged the offence, with a refusal while the ban was certain and the ban seen over; (concurrent) >= 2 '
+         'refused dial during the ban and an accepted one after it (multi-connection peer: banned while holding >= 2 connections, all closed), or a legal-only scenario that filled a rate window exactly or whose mix over the procedures exceeded a single limit, or (concurrent traffic around ticks) a reset tick that fell into a held or running penalty path of a procedure of which an innocent peer sent more than the limit over the two adjacent windows, or (late honest responses) at least one response observed late, the scores read after the traffic had drained and a re-dial accepted, or (hit-and-run) an offence booked although the victim listed no connection to the offender (or not the offending connection) when it logged the offence, with a refusal while the ban was certain and the ban seen over, or (large honest messages) a request envelope and a response envelope above 1 MiB delivered intact, the scores read after the drain and a re-dial accepted; (concurrent) >= 2 '
          'racing penalties reaching the threshold. Distinct by digest of the concrete operation list. '
          '(c) INVALID SYNC REQUESTS against the REAL sync handlers (TestSyncRequests, TestRegressSyncRequests): the penalising side is a real consensus '
          'node (harness/node: Executer + consensus/sync Syncer over an in-memory chain of 1-6 blocks, started p2p.Connection on which Executer.Init '
@@ -110,6 +111,7 @@ CHECK = {'level': 'exploration',
                  'window over by elapsed time (fallback of the concurrent-tick scenarios, not needed on the unchanged tree): after a reset tick has positively fired, every counter has been reset once no penalising checkLimit is in progress and the process ran >= 20 heartbeats (>= 100 ms) since',
                  'an end-to-end scenario is reported only if it fails in 3 consecutive attempts without a process stall > 250 ms (else inconclusive); exception (late-response scenarios): a score or ban stored for the IP of a peer that only sent well-formed, solicited traffic within the limits is positive evidence that no delay can produce and is reported at its first occurrence',
                  'a response to a request this node really sent (same request ID, registered procedure, decodable) is well-formed traffic whenever it arrives: after the response timeout, after a re-send under a fresh ID, after the caller cancelled; the re-sends of RequestFrom (up to messageMaxRetries) count as requests of the requester',
+                 'a request or response envelope that decodes, names a registered procedure and stays within the rate limits is well-formed traffic at every size the transport delivers (checked up to a payload of 3 MiB; the unchanged engine and libp2p set no limit of their own); that it is delivered intact is asserted next to the scores (3-attempt rule), a stored score for its sender is reported at once',
                  'hit-and-run: a penalty belongs to the IP the offending message came from, not to the live connection; the victim logging the offence (its stream handler read the message and reached the penalty call) is the evidence that the message was processed; keeping the handler in that logger call until the offender is gone is a schedule the statement quantifies over; penalties addressed by peer ID (ApplyPenalty/BanPeer) for a peer without any live connection are outside the domain',
                  'a "ban should be over by now" verdict is final only if it persists over 600 further process heartbeats (>= 3 s)'],
  'quick': [{'pkg': 'c18', 'run': 'TestGaterUntimed|TestGaterConcurrent|TestRegress', 'checks': 3000, 'timeout': 600},
